@@ -78,7 +78,7 @@ def main():
     else:
         print("worktree gone; skipping demonstration re-run")
     meta["confirmed_breaks_and_suite_passes"] = confirmed
-    copy = f"/tmp/seedrepo_{name}"
+    copy = f"/tmp/seedrepo_{name}_{os.getpid()}"
     shutil.rmtree(copy, ignore_errors=True)
     sh(["rsync", "-a", "--exclude", "target", "--exclude", ".git", "/repo/", copy + "/"])
     rc, o = sh(f"patch -p1 -s < {patch}", cwd=copy)
